@@ -116,13 +116,14 @@ func (m *vRmgr) GetNodesDeployCapacity(_ context.Context, names []string, _ reso
 	return out, total, nil
 }
 
-func (s *vStore) GetDeployStatus(context.Context, string, string) (map[string]int, error) {
+func (s *vStore) GetDeployStatus(_ context.Context, appname, entryname string) (map[string]int, error) {
 	defer vGuard()()
 	if s.w.fault("store.GetDeployStatus") {
 		return nil, vErrInjected
 	}
 	out := map[string]int{}
-	if s.w.countStatus {
+	if s.w.countStatus && appname == "app" && entryname == "entry" {
+		// (the status is kept per application and entrypoint: another pair has none)
 		for n := range s.nodes {
 			if k := vDeployCount(s.w, n); k != 0 {
 				out[n] = k
